@@ -82,7 +82,8 @@ def run_checks(pid, k, src, checks):
 def main():
     root = sys.argv[1]
     ids = sys.argv[2:] or sorted({d[len(PREFIX):] for d in os.listdir(root) if d.startswith(PREFIX + 'C')})
-    jobs = [(pid, k) for pid in ids for k in (1, 2) if os.path.isdir(os.path.join(root, f'{PREFIX}{pid}', str(k)))]
+    jobs = [(pid, int(k)) for pid in ids for k in sorted(os.listdir(os.path.join(root, f'{PREFIX}{pid}')), key=lambda x: (len(x), x))
+            if k.isdigit() and os.path.isdir(os.path.join(root, f'{PREFIX}{pid}', k))]
     with ThreadPoolExecutor(8) as ex:
         results = list(ex.map(lambda j: confirm(root, *j), jobs))
     for r in results:
